@@ -50,6 +50,8 @@ Move(g, d) ==
 Big == <<
     Poly(Sq(0, 0, 8), << Rev(Sq(2, 2, 4)) >>),                               \* frame with a 4 x 4 hole
     Poly(Sq(0, 0, 8), << Sq(1, 1, 6) >>),                                    \* thin frame, hole wound ccw
+    Poly(Sq(0, 0, 9), << Rev(Sq(2, 2, 5)) >>),                               \* 5 x 5 hole: a holed 3 x 3 polygon fits strictly inside
+    MPoly(<< [ext |-> Sq(0, 0, 9), holes |-> << Rev(Sq(1, 1, 7)) >>], [ext |-> Sq(3, 3, 1), holes |-> <<>>] >>),   \* island in the hole of a thin frame
     Poly(Sq(0, 0, 8), <<>>),
     Poly(<< <<0, 0>>, <<8, 0>>, <<8, 8>>, <<4, 3>>, <<0, 8>>, <<0, 0>> >>, <<>>),      \* concave
     MPoly(<< [ext |-> Sq(0, 0, 2), holes |-> <<>>], [ext |-> Sq(5, 5, 3), holes |-> << Rev(Sq(6, 6, 1)) >>] >>),
